@@ -139,6 +139,38 @@ func (m *c07Machine) apply(op c07Op) error {
 		}
 		m.Labels[op.Kind+"-ok"] = true
 		return m.compareOthers(op.Who%len(m.lenders), before, rb, sb, op.Kind+"("+amt.String()+")")
+	case "recreate":
+		// the whole life cycle inside one block (no begin-blocker in between): the borrower repays everything, every
+		// lender leaves, then two lenders come back and the first of them leaves again at once. Each step goes through
+		// the ordinary operations and their oracles
+		d := w.App.StablestakeKeeper.GetDebt(m.ctx, m.borrower)
+		if owed := d.GetTotalLiablities(); owed.IsPositive() {
+			if verr := m.apply(c07Op{Kind: "repay", Amount: owed.String()}); verr != nil {
+				return verr
+			}
+		}
+		if verr := m.apply(c07Op{Kind: "emptyvault"}); verr != nil {
+			return verr
+		}
+		a, b := op.Who%len(m.lenders), (op.Who+1)%len(m.lenders)
+		if verr := m.apply(c07Op{Kind: "bond", Who: a, Amount: op.Amount}); verr != nil {
+			return verr
+		}
+		if verr := m.apply(c07Op{Kind: "bond", Who: b, Amount: amt.MulRaw(3).String()}); verr != nil {
+			return verr
+		}
+		if sh := m.shares(m.lenders[a]); sh.IsPositive() {
+			before := m.usdc(m.lenders[a].Addr)
+			if verr := m.apply(c07Op{Kind: "unbond", Who: a, Amount: sh.String()}); verr != nil {
+				return verr
+			}
+			// the lender who bonded amt and left at once must not have gained
+			if got := m.usdc(m.lenders[a].Addr).Sub(before); m.Labels["vault-emptied"] && got.GT(amt.Add(allowance(m.rate()))) {
+				return fmt.Errorf("after the vault was emptied and re-created in one block, a lender deposited %s and immediately withdrew %s", amt, got)
+			}
+		}
+		m.Labels["recreated-in-one-block"] = true
+		return nil
 	case "emptyvault":
 		// every lender withdraws everything (possible only while nothing is lent out): the vault is emptied, and
 		// whatever is bonded next re-creates it
@@ -384,7 +416,11 @@ func TestC07(t *testing.T) {
 			who := UniformDraw(rt, "who", 4)
 			switch UniformDraw(rt, "op", 13) {
 			case 12:
-				op = c07Op{Kind: "emptyvault"}
+				if UniformDraw(rt, "recreate?", 2) == 1 {
+					op = c07Op{Kind: "recreate", Who: who, Amount: amount("recreate", sdkmath.NewInt(1_000_000)).String()}
+				} else {
+					op = c07Op{Kind: "emptyvault"}
+				}
 			case 0, 1, 2:
 				op = c07Op{Kind: "bond", Who: who, Amount: amount("bond", m.tv()).String()}
 			case 3, 4:
